@@ -32,7 +32,17 @@ pub fn run(args: &Args) {
         "(L (el 100 (A) (C (show 0 (text 104.105)))))",
         "(L (el 100 (A) (C (show 0 (dtext 1)) (show 1 (el 101 (A) (C))))))",
     ];
-    for f in fam {
+    // NoHydrate: alone, nested, before/after hydrated siblings, with dynamic content inside
+    let fam_nh = [
+        "(L (el 100 (A) (C (nohydrate (el 104 (A) (C (text 115)))) (el 109 (A (99 (d 0))) (C (dtext 1))))))",
+        "(L (nohydrate (el 104 (A) (C (nohydrate (el 115 (A) (C))) (el 116 (A) (C (text 120)))))) (el 109 (A) (C (dtext 0))))",
+        "(L (el 100 (A) (C (nohydrate (dtext 0)) (dtext 1))))",
+        "(L (el 100 (A) (C (nohydrate (dview 0 (alt (text 97)) (alt (el 98 (A) (C))))) (dview 1 (alt (text 99)) (alt (el 100 (A) (C)))))))",
+        "(L (el 100 (A) (C (dview 1 (alt (text 99)) (alt (el 100 (A) (C)))) (nohydrate (dview 0 (alt (text 97)) (alt (el 98 (A) (C))))))))",
+        "(L (nohydrate (el 104 (A (99 (d 0))) (C (dtext 0)))) (el 109 (A) (C (nohydrate (text 97)) (text 98) (dtext 1))))",
+        "(L (dview 0 (alt (nohydrate (el 97 (A) (C))) (el 98 (A) (C (dtext 1)))) (alt (el 99 (A) (C)))))",
+    ];
+    for f in fam_nh.iter().chain(fam.iter()) {
         let Some(Sx::L(l)) = sx_parse(f) else { continue };
         let vds: Vec<VD> = l[1..].iter().map(|s| rd(s).unwrap()).collect();
         for (st, ws) in [(vec![0u32, 0], "0=1,1=1,0=2,1=2"), (vec![1, 1], "1=2,0=0,0=1,1=3"), (vec![3, 2], "0=3,0=4,1=5")] { push(&vds, &st, ws); }
@@ -44,7 +54,7 @@ pub fn run(args: &Args) {
         let mut budget = 10;
         let k = 1 + rng.below(2);
         let mut vds: Vec<VD> = (0..k).map(|_| gen(&mut rng, 3, nsig, &mut budget)).collect();
-        if !with_show { fn strip(v: &mut VD) { match v { VD::Show(_, cs) => { let c = std::mem::take(cs); *v = VD::Frag(c); strip(v) } VD::El(_, _, cs) | VD::Frag(cs) => cs.iter_mut().for_each(strip), VD::DView(_, alts) | VD::DView0(_, alts) => alts.iter_mut().for_each(|a| a.iter_mut().for_each(strip)), _ => {} } } vds.iter_mut().for_each(strip); }
+        if !with_show { fn strip(v: &mut VD) { match v { VD::Show(_, cs) => { let c = std::mem::take(cs); *v = VD::Frag(c); strip(v) } VD::El(_, _, cs) | VD::Frag(cs) | VD::NoHydrate(cs) => cs.iter_mut().for_each(strip), VD::DView(_, alts) | VD::DView0(_, alts) => alts.iter_mut().for_each(|a| a.iter_mut().for_each(strip)), _ => {} } } vds.iter_mut().for_each(strip); }
         let store: Vec<u32> = (0..nsig + 1).map(|_| rng.below(4) as u32).collect();
         let nw = rng.below(6);
         let ws: Vec<String> = (0..nw).map(|_| format!("{}={}", rng.below(nsig), rng.below(7))).collect();
